@@ -3,8 +3,8 @@ CONSTANTS
   Digests = {d1, d2}
   Threads = {t1, t2, t3}
   NoDigest = NoDigest
-  MaxGets = 7
-  MaxUpd = 3
+  MaxGets = 10
+  MaxUpd = 5
   WritesPerRead = 3
   VersionRules = {"cur+1"}
   WriteGuards = {TRUE}
